@@ -1,6 +1,9 @@
 package main
 
 import (
+	"go/token"
+	"go/types"
+	"go/constant"
 	"strings"
 
 	"golang.org/x/tools/go/callgraph"
@@ -429,22 +432,171 @@ func ruleR046(p *Program, r *Report) {
 		r.Bad("R04.6", fnName(fn), "pending entry removed", p.Pos(fn.Pos()), "HandleDatabasePacket never removes a pending statement")
 		return
 	}
-	for _, pred := range []string{"IsCommandComplete", "IsEmptyQueryResponse", "IsPortalSuspended", "IsErrorResponse"} {
-		ok, why := false, "the message type is not tested"
-		for _, c := range callsNamed(fn, pred) {
-			// the true edge of this test (directly or through the || chain) must be able to reach the removal,
-			// and must not end in a return before it
-			for _, i := range ifsOn(c) {
-				t := i.Block().Succs[0]
-				if t == rm.Block() || reaches(t, rm.Block(), nil) {
-					ok = true
-				} else {
-					why = "its branch returns without removing the pending statement"
+	// The function is interpreted once per terminating message type: every test of the packet's type byte, here or
+	// in a boolean helper of the packet (IsCommandComplete, a combined "IsCommandEnd", a switch), is decided by the
+	// type under consideration, every other condition is left open. The removal must be reachable for each type.
+	for _, pred := range []string{"CommandComplete", "EmptyQueryResponse", "PortalSuspended", "ErrorResponse"} {
+		c, ok := p.Lookup("decryptor/postgresql." + pred + "Type").(*types.Const)
+		if !ok {
+			r.Anchor("R04.6", "constant "+pred+"Type")
+			continue
+		}
+		k, _ := constant.Int64Val(constant.ToInt(c.Val()))
+		mt := &msgTypeInterp{k: k, memo: map[*ssa.Function]int{}}
+		got := mt.reach(fn, rm.Block())
+		r.Check(got, "R04.6", fnName(fn), "Is"+pred+" removes the pending statement", p.Pos(rm.Pos()), "for this message type the tests of the type byte lead to RemoveNextPendingPacket", "no path that the tests of the message type allow for this message leads to RemoveNextPendingPacket: after such a result the queue keeps a finished statement at its head and the rows of every later statement are decoded with the wrong column settings")
+	}
+}
+
+// msgTypeInterp interprets boolean conditions over `x.messageType[0]` for one concrete type byte k.
+type msgTypeInterp struct {
+	k    int64
+	memo map[*ssa.Function]int // 0 unknown/in progress, 1 false, 2 true, 3 undetermined
+}
+
+const (
+	mtFalse = 1
+	mtTrue  = 2
+	mtOpen  = 3
+)
+
+func isMsgTypeLoad(v ssa.Value) bool {
+	u, ok := stripConv(v).(*ssa.UnOp)
+	if !ok || u.Op != token.MUL {
+		return false
+	}
+	ia, ok := u.X.(*ssa.IndexAddr)
+	if !ok {
+		return false
+	}
+	if i, isC := intConst(ia.Index); !isC || i != 0 {
+		return false
+	}
+	x := ia.X
+	if l, ok := x.(*ssa.UnOp); ok && l.Op == token.MUL {
+		x = l.X
+	}
+	fa, ok := x.(*ssa.FieldAddr)
+	if !ok {
+		return false
+	}
+	st, ok := fa.X.Type().Underlying().(*types.Pointer).Elem().Underlying().(*types.Struct)
+	return ok && st.Field(fa.Field).Name() == "messageType"
+}
+
+// eval: the value of boolean v for type byte k, reached through predecessor `from` (for phis).
+func (m *msgTypeInterp) eval(v ssa.Value, from *ssa.BasicBlock, depth int) int {
+	switch x := v.(type) {
+	case *ssa.Const:
+		if x.Value != nil && x.Value.Kind() == constant.Bool {
+			if constant.BoolVal(x.Value) {
+				return mtTrue
+			}
+			return mtFalse
+		}
+	case *ssa.UnOp:
+		if x.Op == token.NOT {
+			switch m.eval(x.X, from, depth) {
+			case mtTrue:
+				return mtFalse
+			case mtFalse:
+				return mtTrue
+			}
+		}
+	case *ssa.BinOp:
+		if x.Op == token.EQL || x.Op == token.NEQ {
+			var other ssa.Value
+			if isMsgTypeLoad(x.X) {
+				other = x.Y
+			} else if isMsgTypeLoad(x.Y) {
+				other = x.X
+			}
+			if other != nil {
+				if c, ok := intConst(stripConv(other)); ok {
+					if (c == m.k) == (x.Op == token.EQL) {
+						return mtTrue
+					}
+					return mtFalse
 				}
 			}
 		}
-		r.Check(ok, "R04.6", fnName(fn), pred+" removes the pending statement", p.Pos(rm.Pos()), "true edge reaches RemoveNextPendingPacket", why+": after such a result the queue keeps a finished statement at its head and the rows of every later statement are decoded with the wrong column settings")
+	case *ssa.Phi:
+		if from != nil {
+			for i, pb := range x.Block().Preds {
+				if pb == from && i < len(x.Edges) {
+					return m.eval(x.Edges[i], nil, depth)
+				}
+			}
+		}
+	case *ssa.Call:
+		if h := x.Call.StaticCallee(); h != nil && h.Blocks != nil && depth < 3 {
+			return m.evalFunc(h, depth+1)
+		}
 	}
+	return mtOpen
+}
+
+// evalFunc: the result of boolean function h for type byte k when every return the type tests allow agrees.
+func (m *msgTypeInterp) evalFunc(h *ssa.Function, depth int) int {
+	if v, ok := m.memo[h]; ok {
+		if v == 0 {
+			return mtOpen
+		}
+		return v
+	}
+	m.memo[h] = 0
+	res := 0
+	m.walk(h, depth, func(b, from *ssa.BasicBlock) bool {
+		if ret, ok := b.Instrs[len(b.Instrs)-1].(*ssa.Return); ok && len(ret.Results) == 1 {
+			v := m.eval(ret.Results[0], from, depth)
+			if res == 0 {
+				res = v
+			} else if res != v {
+				res = mtOpen
+			}
+		}
+		return false
+	})
+	if res == 0 {
+		res = mtOpen
+	}
+	m.memo[h] = res
+	return res
+}
+
+// walk visits the (block, predecessor) pairs that the type tests allow; visit returning true stops the walk.
+func (m *msgTypeInterp) walk(fn *ssa.Function, depth int, visit func(b, from *ssa.BasicBlock) bool) bool {
+	type st struct{ b, from *ssa.BasicBlock }
+	seen := map[st]bool{}
+	var dfs func(b, from *ssa.BasicBlock) bool
+	dfs = func(b, from *ssa.BasicBlock) bool {
+		if seen[st{b, from}] {
+			return false
+		}
+		seen[st{b, from}] = true
+		if visit(b, from) {
+			return true
+		}
+		if iff, ok := b.Instrs[len(b.Instrs)-1].(*ssa.If); ok {
+			switch m.eval(iff.Cond, from, depth) {
+			case mtTrue:
+				return dfs(b.Succs[0], b)
+			case mtFalse:
+				return dfs(b.Succs[1], b)
+			}
+		}
+		for _, s := range b.Succs {
+			if dfs(s, b) {
+				return true
+			}
+		}
+		return false
+	}
+	return dfs(fn.Blocks[0], nil)
+}
+
+func (m *msgTypeInterp) reach(fn *ssa.Function, target *ssa.BasicBlock) bool {
+	return m.walk(fn, 0, func(b, _ *ssa.BasicBlock) bool { return b == target })
 }
 
 func ruleR047(p *Program, r *Report) {
@@ -481,6 +633,8 @@ func ruleR047(p *Program, r *Report) {
 
 func init() {
 	mut("C04", "PortalSuspended no longer pops the pending statement", "decryptor/postgresql/protocol.go", "	if packet.IsCommandComplete() || packet.IsEmptyQueryResponse() || packet.IsPortalSuspended() || packet.IsErrorResponse() {", "	if packet.IsPortalSuspended() {\n		p.lastPacketType = OtherPacket\n		return nil\n	}\n	if packet.IsCommandComplete() || packet.IsEmptyQueryResponse() || packet.IsErrorResponse() {", "R04.6", "IsPortalSuspended")
+	mut("C04", "EmptyQueryResponse no longer ends a command", "decryptor/postgresql/protocol.go", "	if packet.IsCommandComplete() || packet.IsEmptyQueryResponse() || packet.IsPortalSuspended() || packet.IsErrorResponse() {", "	if packet.IsCommandComplete() || packet.IsPortalSuspended() || packet.IsErrorResponse() {", "R04.6", "IsEmptyQueryResponse")
+	mut("C04", "ErrorResponse handled before the queue is touched", "decryptor/postgresql/protocol.go", "	if packet.IsCommandComplete() || packet.IsEmptyQueryResponse() || packet.IsPortalSuspended() || packet.IsErrorResponse() {", "	if packet.IsErrorResponse() {\n		p.lastPacketType = OtherPacket\n		return nil\n	}\n	if packet.IsCommandComplete() || packet.IsEmptyQueryResponse() || packet.IsPortalSuspended() || packet.IsErrorResponse() {", "R04.6", "IsErrorResponse")
 	mut("C04", "pg placeholder bound is the width of one tuple", "encryptor/postgresql/queryDataEncryptor.go", "		valuesCount += len(values)", "		valuesCount = len(values)", "R04.7", "running total")
 }
 
